@@ -159,7 +159,9 @@ func assignsIn(u *core.Unit, match func(lhs ast.Expr) bool) []Assign {
 		if h := u.Prog.UnitOf(cl.Callee); h != nil && h != u.Root() && assignDepth < 3 {
 			assignDepth++
 			for _, a := range assignsIn(h, match) {
+				orig := a.Loc
 				a.Loc = cl.Loc
+				a.Loc.Orig = &core.OrigLoc{G: h.Graph(), L: orig}
 				out = append(out, a)
 			}
 			assignDepth--
